@@ -4,6 +4,7 @@ mod gen;
 mod streams;
 mod oracle;
 mod refimpl;
+mod cli;
 
 use std::collections::HashMap;
 
@@ -28,6 +29,7 @@ fn main() {
         "dend" => streams::stream_dend(&opt),
         "capi" => streams::stream_capi(&opt),
         "oracle" => oracle::run(&opt),
+        "cliexpect" => cli::run(&opt),
         _ => { eprintln!("unknown command {}", cmd); 2 }
     };
     std::process::exit(code);
